@@ -150,6 +150,10 @@ def check_request(cap: dict, x: dict, base_path: str = "/base") -> list:
             expq += [(k, i) for k, i in v.items()]
         else:
             expq.append((nm, v))
+    for u in x["unset"]["query"]:
+        # omitting an argument that has a declared default transmits that default (C13)
+        if u.get("has_default") and u.get("default_raw") is not None and not isinstance(u["default_raw"], (list, dict)):
+            expq.append((u["name"], u["default_raw"]))
     got = [tuple(q) for q in cap["query"]]
     for nm, v in expq:
         hit = next((g for g in got if g[0] == nm and spell_ok(v, g[1])), None)
